@@ -52,7 +52,7 @@ def run_parts(module, cfg_tmpl, parts, name, wd, timeout=3600):
     def one(i):
         cfg = os.path.join(wd, f"{name}-{i}.cfg")
         open(cfg, "w").write(cfg_tmpl.replace("{part}", str(i)).replace("{parts}", str(parts)))
-        return run_tlc(module, cfg, f"{name}-{i}", workers=1, timeout=timeout, java_opts="-Xss256m -Xmx3g")
+        return run_tlc(module, cfg, f"{name}-{i}", workers=1, timeout=timeout, java_opts="-Xss256m -Xmx3g", extra=("-maxSetSize", "4000000"))
     with cf.ThreadPoolExecutor(max_workers=14) as ex:
         return list(ex.map(one, range(parts)))
 
@@ -365,9 +365,28 @@ def check_c14():
         rep.violation(f"obs:{json.dumps(chunk[j:k])[:300]}",
                       f"call of the real TagState rejected by TagInject.tla: {chunk[k - 1]} after {chunk[j:k - 1]}",
                       dict(session=chunk[j:k]))
+    # whole files exercising create / store / use / error orders (PpCore.tla on structured tag families, real builds compared)
+    import pp_engine
+    fam = [x for x in pp_engine.structured_sources(rng, 10 ** 9) if "TXTPP#tag" in pp_engine.MCPP_CATALOGUE[x[0] - 1] or "TXTPP#tag" in pp_engine.MCPP_CATALOGUE[x[1] - 1]]
+    if quick:
+        fam = rng.sample(fam, min(len(fam), 2500))
+    st2, pcases = pp_engine.spec_run(rep, "C14", wd, 1, [], extra=fam)
+    states += st2
+    vcs, vmeta = [], []
+    for c in pcases:
+        le = rng.choice(["\n", "\r\n"])
+        vcs.append(pp_engine.make_case("tagfile", c["src"], le, True))
+        vmeta.append((c, le))
+    whole = 0
+    for (c, le), r in zip(vmeta, pp_engine.vh_cases(vcs, wd, "tagfiles")):
+        if r.get("skipped"):
+            continue
+        whole += 1
+        for msg in pp_engine.compare_build(pp_engine.expected_of(c, le, True), r["steps"][0]):
+            rep.violation(f"tagfile:{json.dumps(c['src'])}", f"{msg} [whole file with tags: {c['src']} le={le!r}]", dict(src=c["src"], le=le))
     rep.coverage.update(dict(
         states=states, transitions=states,
-        traces_validated_against_impl=validated,
+        traces_validated_against_impl=validated + whole, whole_files_with_tags=whole,
         setups_exhaustive=len(tables), cases_executed=cases, repetitions_per_case=reps,
         cases_with_a_substitution=len(nontrivial),
         exhaustive=True,
